@@ -56,22 +56,14 @@ def judge(ctx, sc, run):
     needed = {}            # script hash -> description
     problems = []
 
-    def bad(what, exp=None, act=None, finding=None):
+    def bad(what, exp=None, act=None):
         problems.append(what)
-        ctx.violation(what, strip(sc), exp, act, finding=finding)
-
-    # what the two recorded defects would make of the indices (used only to recognise them narrowly)
-    alt = {}               # (tag, index as the defect computes it) -> marker
-    dup_ref = None
-    if x.get("dup_input"):
-        du = cx.utxo_objs[x["dup_input"]]
-        dup_ref = (bytes(du.input.transaction_id.payload), int(du.input.index))
-    zero_pols = [P.spec_hash(z) for z in x.get("zero_mint") or []]
+        ctx.violation(what, strip(sc), exp, act)
 
     for a in x["attach"]:
         h = P.spec_hash(a["script"])
         needed[h] = a
-        key = akey = None
+        key = None
         if a["kind"] == "spend":
             u = cx.utxo_objs[a["u"]]
             ref = (bytes(u.input.transaction_id.payload), int(u.input.index))
@@ -79,14 +71,12 @@ def judge(ctx, sc, run):
                 bad(f"script input {a['u']} is not among the inputs of the body", ref[0].hex(), body.inputs)
                 continue
             key = (0, sum(1 for i in tv.sorted_inputs if i < ref))
-            akey = (0, key[1] + (1 if dup_ref is not None and dup_ref < ref else 0))
             ctx.count(f"spend-rank:{min(key[1], 6)}")
         elif a["kind"] == "mint":
             if h not in tv.policies:
                 bad("minting policy of an attached script is not in the body's mint", h.hex(), [p.hex() for p in tv.policies])
                 continue
             key = (1, sum(1 for p in tv.policies if p < h))
-            akey = (1, key[1] + sum(1 for z in zero_pols if z < h))
             ctx.count(f"mint-rank:{key[1]}")
         elif a["kind"] == "reward":
             acct = b"\xf0" + h
@@ -108,7 +98,6 @@ def judge(ctx, sc, run):
             if key in expected:
                 ctx.count("two-attachments-one-item")      # e.g. two certificate scripts for one certificate
             expected.setdefault(key, []).append(a["marker"])
-            alt.setdefault(akey or key, []).append(a["marker"])
             ctx.count("tag:" + a["kind"])
         ctx.count(f"loc:{a['kind']}:{a['loc']}")
         ctx.count("lang:" + P.spec_kind(a["script"], a.get("raw")))
@@ -121,18 +110,30 @@ def judge(ctx, sc, run):
     exp_cmp = {f"{k[0]}:{k[1]}": sorted(v) for k, v in expected.items()}
     got_cmp = {f"{k[0]}:{k[1]}": sorted(v, key=lambda m: (m is None, m)) for k, v in found.items()}
     if exp_cmp != got_cmp:
-        alt_cmp = {f"{k[0]}:{k[1]}": sorted(v) for k, v in alt.items()}
-        fid = None
-        if got_cmp == alt_cmp and dup_ref is not None:
-            fid = "KF-C11-duplicate-input"       # indices are list positions in the input list that repeats a UTxO
-        elif got_cmp == alt_cmp and zero_pols:
-            fid = "KF-C11-zero-mint-policy"      # a stored policy without non-zero quantity is counted in the mint rank
+        # includes the two repaired defects (were KF-C11-duplicate-input, KF-C11-zero-mint-policy): a UTxO added more than
+        # once, or a stored mint policy without a non-zero quantity, must not shift any index
         bad("redeemer purpose/index does not designate the item it was attached to "
-            "(map '<tag>:<index>' -> marker of the attachment)", exp_cmp, got_cmp, finding=fid)
+            "(map '<tag>:<index>' -> marker of the attachment)", exp_cmp, got_cmp)
     if x.get("dup_input"):
-        ctx.count("variant:duplicate-add_input")
+        n_add = sum(1 for o in sc["ops"] if o["op"] == "add_input" and o["u"] == x["dup_input"])
+        n_scr = sum(1 for o in sc["ops"] if o["op"] == "x_script_input" and o["u"] == x["dup_input"])
+        ctx.count("variant:same-utxo-added-again:" + ("add_input-twice" if n_add > 1 else "add_script_input-twice" if n_scr > 1
+                                                      else "add_input+add_script_input"))
+        du = cx.utxo_objs[x["dup_input"]]
+        dref = (bytes(du.input.transaction_id.payload), int(du.input.index))
+        if any(dref < r for r in tv.sorted_inputs if any(
+                a["kind"] == "spend" and "marker" in a and tuple(P.utxo_ref(cx, a["u"])) == (r[0].hex(), r[1]) for a in x["attach"])):
+            ctx.count("variant:same-utxo-added-again:sorts-before-a-script-input")
+        if len(run.builder.inputs) != len(tv.sorted_inputs):
+            bad("builder.inputs names a UTxO more than once after build (hidden by the body's set, counted twice in the change)",
+                len(tv.sorted_inputs), len(run.builder.inputs))
     if x.get("zero_mint"):
         ctx.count("variant:zero-quantity-mint-policy")
+        zs = [P.spec_hash(z) for z in x["zero_mint"]]
+        if any(z in tv.policies for z in zs):
+            bad("a stored policy without a non-zero quantity is in the body's mint", [], [z.hex() for z in zs if z in tv.policies])
+        if any(z < P.spec_hash(a["script"]) for z in zs for a in x["attach"] if a["kind"] == "mint" and "marker" in a):
+            ctx.count("variant:zero-quantity-mint-policy:sorts-before-an-attached-policy")
     if tv.red_form is not None:
         ctx.count("redeemers:" + tv.red_form)
 
@@ -231,7 +232,8 @@ def correspond(ctx, sc, run, tv):
     att = [a for a in sc["x"]["attach"] if "marker" in a]
     rq = {"op": "ranks", "net": "0",
           "inputs": [[bytes(i.input.transaction_id.payload).hex(), str(int(i.input.index))] for i in b.inputs],
-          "mint": [bytes(p.payload).hex() for p in (b.mint or {})],
+          "mint": [[bytes(p.payload).hex(), [[bytes(n.payload).hex(), str(int(q))] for n, q in a.items()]]
+                   for p, a in (b.mint or {}).items()],
           "wdrl": [bytes(k).hex() for k in (b.withdrawals or {})],
           "spend": [P.utxo_ref(cx, a["u"]) for a in att if a["kind"] == "spend"],
           "mintq": [P.spec_hash(a["script"]).hex() for a in att if a["kind"] == "mint"],
@@ -279,7 +281,7 @@ def evaluate(ctx, sc):
     n_in = len(tv.body.inputs)
     ctx.count(f"inputs:{min(n_in, 8)}")
     ctx.count("units:" + ("evaluated" if x["estimate"] else "supplied"))
-    sel = n_in - sum(1 for o in sc["ops"] if o["op"] in ("add_input", "x_script_input"))
+    sel = n_in - len({o["u"] for o in sc["ops"] if o["op"] in ("add_input", "x_script_input")})
     ctx.count("selected-extra-inputs:" + ("yes" if sel > 0 else "no"))
     ctx.count("script-inputs:%d" % sum(1 for a in x["attach"] if a["kind"] == "spend"))
     ctx.count("policies:%d" % sum(1 for a in x["attach"] if a["kind"] == "mint"))
@@ -299,11 +301,15 @@ def corpus(rng_seed="corpus"):
         {"n_si": 0, "n_key": 1, "n_mint": 3, "n_wd": 2, "n_cert": 0, "select": True, "versions": [1, 2, 3]},
         {"n_si": 1, "n_key": 0, "n_mint": 0, "n_wd": 2, "n_cert": 3, "select": False, "mixed_wd": True},
         {"n_si": 4, "n_key": 0, "n_mint": 2, "n_wd": 0, "n_cert": 1, "select": True, "versions": [3]},
-        # the two recorded defects: a UTxO added twice / a stored mint policy whose only quantity is 0
+        # regressions of the two repaired defects (were KF-C11-duplicate-input, KF-C11-zero-mint-policy): a UTxO added more
+        # than once — add_input twice, add_input + add_script_input, add_script_input twice with another redeemer — and a
+        # stored mint policy whose only quantity is 0; every index must still be the rank in the body
         {"n_si": 2, "n_key": 2, "n_mint": 0, "n_wd": 0, "n_cert": 0, "select": False, "dup_input": True},
+        {"n_si": 3, "n_key": 1, "n_mint": 0, "n_wd": 0, "n_cert": 0, "select": True, "dup_input": "script"},
+        {"n_si": 3, "n_key": 1, "n_mint": 1, "n_wd": 0, "n_cert": 0, "select": False, "dup_input": "twice", "versions": [2, 3]},
         {"n_si": 1, "n_key": 1, "n_mint": 2, "n_wd": 0, "n_cert": 0, "select": False, "zero_mint": True, "versions": [2]},
     ]
-    out.extend([DUPLICATE_INPUT, ZERO_MINT_POLICY])
+    out.extend([DUPLICATE_INPUT, DUPLICATE_SCRIPT_INPUT, ZERO_MINT_POLICY])
     for i, f in enumerate(forces):
         for j in range(2):
             out.append(P.gen(random.Random(f"{rng_seed}/{i}/{j}"), force=f))
@@ -313,8 +319,9 @@ def corpus(rng_seed="corpus"):
 _X = {"estimate": False, "use_list": False, "versions": [2], "cm_mode": "default", "mixed_wd": False,
       "zero_mint": [], "dup_input": None}
 
-# minimal witness of KF-C11-duplicate-input: add_input(kx0) twice, kx0 sorts before the script input s0.  The body has
-# the inputs {kx0, s0, w0}: s0 has rank 1, the redeemer says index 2 (its position in the list [kx0, kx0, s0, w0]).
+# regression witness of the repaired KF-C11-duplicate-input (a regression is a plain violation): add_input(kx0) twice,
+# kx0 sorts before the script input s0.  The body has the inputs {kx0, s0, w0}: s0 has rank 1; before the repair the
+# redeemer said index 2 (its position in the list [kx0, kx0, s0, w0]) and the change counted kx0 twice.
 DUPLICATE_INPUT = {
     "slot": 5000,
     "utxos": [{"id": "s0", "txid": "5c" + "11" * 31, "ix": 0, "addr": ["script", "p2:a"], "coin": 5000000},
@@ -331,8 +338,31 @@ DUPLICATE_INPUT = {
                       "datum_mode": "hash", "marker": 7000001}]},
 }
 
-# minimal witness of KF-C11-zero-mint-policy: builder.mint = {p2:zero1: {z: 0}, p2:ma: {a: 1}} stored directly; the body's
-# mint holds p2:ma only (rank 0), the redeemer says index 1 because hash(p2:zero1) < hash(p2:ma) is still counted.
+# the same through the other route: the script UTxO s0 is first added as a plain input, then as a script input, and a
+# second script input s1 sorts after it.  The body has {s0, s1, w0}; before the repair s1's redeemer said index 2.
+DUPLICATE_SCRIPT_INPUT = {
+    "slot": 5000,
+    "utxos": [{"id": "s0", "txid": "0a" + "11" * 31, "ix": 0, "addr": ["script", "p2:a"], "coin": 5000000},
+              {"id": "s1", "txid": "5c" + "22" * 31, "ix": 3, "addr": ["script", "p3:b"], "coin": 4000000},
+              {"id": "w0", "txid": "ff" + "33" * 31, "ix": 0, "addr": "k0", "coin": 60000000}],
+    "address_utxos": {"k0": ["w0"]},
+    "ops": [{"op": "add_input", "u": "s0"},
+            {"op": "x_script_input", "u": "s1", "script": "p3:b", "script_in": "witness",
+             "redeemer": {"data": 7000002, "units": [1500, 2500]}},
+            {"op": "x_script_input", "u": "s0", "script": "p2:a", "script_in": "witness", "datum": 42, "datum_mode": "hash",
+             "redeemer": {"data": 7000001, "units": [1000, 2000]}},
+            {"op": "add_input", "u": "w0"}, {"op": "add_output", "addr": "k1", "coin": 3000000}],
+    "build": {"change": "k0", "selectors": [["largest"]], "pyseed": 1}, "sign": ["k0"],
+    "x": {**_X, "versions": [2, 3], "dup_input": "s0",
+          "attach": [{"kind": "spend", "u": "s0", "script": "p2:a", "raw": False, "loc": "witness", "native": False,
+                      "datum_mode": "hash", "marker": 7000001},
+                     {"kind": "spend", "u": "s1", "script": "p3:b", "raw": False, "loc": "witness", "native": False,
+                      "datum_mode": "none", "marker": 7000002}]},
+}
+
+# regression witness of the repaired KF-C11-zero-mint-policy: builder.mint = {p2:zero1: {z: 0}, p2:ma: {a: 1}} stored
+# directly; the body's mint holds p2:ma only (rank 0); before the repair the redeemer said index 1 because
+# hash(p2:zero1) < hash(p2:ma) was still counted.
 ZERO_MINT_POLICY = {
     "slot": 5000,
     "utxos": [{"id": "w0", "txid": "ff" + "33" * 31, "ix": 0, "addr": "k0", "coin": 60000000}],
@@ -349,8 +379,9 @@ ZERO_MINT_POLICY = {
 def run(ctx):
     ctx.rule = ("Plutus builder scenarios: 0..4 script inputs (script in witness / on a reference UTxO / on the spent UTxO / "
                 "found at the script address behind a decoy; datum by hash, inline, none for V3; native scripts), 0..3 "
-                "(+ variants: the same key UTxO added twice; a directly stored mint holding a zero-quantity policy) "
-                "minting policies (Plutus, native, raw bytes), 0..2 script withdrawals (+ key withdrawals), certificate "
+                "minting policies (Plutus, native, raw bytes) (+ variants: the same UTxO added again — add_input twice, "
+                "add_input + add_script_input, add_script_input twice with another redeemer; a directly stored mint holding "
+                "a zero-quantity policy), 0..2 script withdrawals (+ key withdrawals), certificate "
                 "scripts between key certificates, V1/V2/V3 mixes, 0..3 key inputs and coin selection from an address pool "
                 "with transaction ids whose first byte / shared id + index (0..100) land before, between and after the "
                 "script inputs, shuffled call order (certificate-related calls keep their order), redeemer map/list, units "
